@@ -21,7 +21,7 @@ class C07(Prop):
             "non-trivial = program with a reference node, constant key, inter-container move or aliasing key, and a non-empty final delete; "
             "distinct by (program, allocator) hash")
     ASSUMPTIONS = ["LeakSanitizer is off inside the Python host (it reports the interpreter); the ledger is the leak oracle"]
-    REQUIRED_CLASSES = ["reference", "const_key", "move", "alias_key", "alias_member_key", "alias_referenced_key", "default_allocator", "custom_hooks", "string_grown"]
+    REQUIRED_CLASSES = ["reference", "const_key", "move", "alias_key", "alias_member_key", "alias_referenced_key", "utils_document_derived_patch", "utils_on_reference_holder", "utils_move_into_itself", "default_allocator", "custom_hooks", "string_grown"]
 
     def budget(self, tier):
         return {"workers": 14, "examples": 1200 if tier == "quick" else 15000}
